@@ -47,6 +47,6 @@ CLAIM = {
     "design_ref": "DESIGN.md section 8, C16; findings F6, F7 (section 9.A); observation 9.B-10",
     "note": "PARTIAL: goroutine scheduling, net/http's Shutdown/Serve and sockets are assumed to behave as the library actions in the model (Go documentation), and the tie to the code is a finite set of "
             "gated scenarios rather than schedule enumeration of the real goroutines. Trusted: Coq kernel+vm_compute, Glue/G16.v, Go driver c16.go (gates, port probes, goroutine dumps, child process of "
-            "cmd/chihaya built with the add-only shim cmd/chihaya/zz_verif.go), miniredis. pkg/metrics.Server (its http.Server exists before the serving goroutine starts, so the F6 shape does not apply; the window inside net/http.ListenAndServe between its shuttingDown test and trackListener is library-internal) is not modelled separately: it is exercised as a member of Run's stop group in the reload histories.",
+            "cmd/chihaya built with the add-only shim cmd/chihaya/zz_verif.go), miniredis. pkg/metrics.Server: modelled as the two-event machine mstate/mstep of Model/Lifecycle.v (C16_metrics_stop_closes: every schedule of the goroutine and Stop; ListenAndServe's bind + registration is ONE step - the window inside net/http between its shuttingDown test and trackListener is library-internal), compared on the schedule 'Stop before the goroutine ran' on one processor (tag 22, five rounds, reported only if the port was bound in all five) and exercised as a member of Run's stop group in the reload histories.",
     "technique": "Coq proofs (invariants over all schedules of lifecycle interleaving machines, stop-group algebra, reload transparency) + gated deterministic scenarios on the real code compared with the model",
 }
